@@ -90,6 +90,13 @@ func Begin(id, level, rule string) *Run {
 			os.Exit(2)
 		}()
 	}
+	if os.Getenv("VX_CHILD") == "" {
+		// replays of an earlier run of the same tier and seed would be misleading
+		old, _ := filepath.Glob(filepath.Join(r.Dir, "replays", id, fmt.Sprintf("%s-seed%d-*", r.Tier, r.Seed)))
+		for _, p := range old {
+			os.Remove(p)
+		}
+	}
 	f, err := os.ReadFile(filepath.Join(r.Dir, "known_findings.jsonl"))
 	if err == nil {
 		for _, ln := range strings.Split(string(f), "\n") {
